@@ -40,6 +40,8 @@ def run(chk):
         for lit in (a + "%", a[:2] + "." + a[2:] + "%" if len(a) > 2 else a + "%", a + "/" + a, "1/" + a, a, "-" + a):
             texts.append("send [USD 1] (\n source = @world\n destination = { %s to @a remaining kept }\n)\n" % lit
                          if not lit.lstrip("-").isdigit() else "send [USD %s] (\n source = @world\n destination = @a\n)\n" % lit)
+    import tricky
+    texts += tricky.literal_scripts(rng, chk.size(300, 5000))
     texts = list(dict.fromkeys(texts))
     gos = runner.run_go([{"id": i, "op": "parse", "script": t} for i, t in enumerate(texts)])
     fails = []
@@ -74,6 +76,27 @@ def run(chk):
                 stats["distinct_nontrivial"] += 1
         if why:
             fails.append(({"script": t}, {"parseErrors": errs}, None, why[:3], site))
+    # a parse result is a value: what Parse returned for one text (tree, errors, their ranges and display) must not
+    # change because other texts are parsed afterwards
+    seqs = []
+    pool_bad = [t for t, o in zip(texts, gos) if o.get("parseErrors")]
+    pool_ok = [t for t, o in zip(texts, gos) if o.get("parseErrors") == []]
+    for _ in range(chk.size(400, 6000)):
+        k = rng.randrange(2, 6)
+        seq = [rng.choice(pool_bad) if (pool_bad and rng.random() < 0.7) else rng.choice(pool_ok or pool_bad or [""]) for _ in range(k)]
+        if rng.random() < 0.5:
+            seq.sort(key=len)            # a short text first, longer ones later: stale positions would fall outside it
+        seqs.append(seq)
+    sres = runner.run_go([{"id": i, "op": "parseseq", "args": sq} for i, sq in enumerate(seqs)])
+    stats["parse_sequences"] = len(seqs)
+    stats["evaluations"] += len(seqs)
+    for sq, o in zip(seqs, sres):
+        if o.get("changed"):
+            fails.append(({"parse_sequence": sq}, {"changed": o["changed"], "detail": o.get("detail")}, None,
+                          ["the result of parsing text #%d changed after later texts were parsed (its errors or tree are shared with another parse): %s"
+                           % (o["changed"][0], (o.get("detail") or [""])[0][:300])], None))
+        elif "changed" not in o:
+            fails.append(({"parse_sequence": sq}, o, None, ["parsing a sequence of texts crashed: %s" % str(o)[:200]], None))
     # correspondence of the display model (Model/Show.lean) with Range.ShowOnSource: random ranges,
     # displayable or not, over sources with non-ASCII lines, CR/LF, empty lines
     from runner import enc, dec
